@@ -743,4 +743,276 @@ theorem lower_idem (s : Str) : lower (lower s) = lower s := by
   unfold lower
   simp [List.map_map, Function.comp_def, toLower_idem]
 
+/-! ### the alias chase -/
+
+theorem lastCnameTarget_mem : ∀ (l : List ChRR) (x : Str), lastCnameTarget l = some x →
+    ∃ c ∈ l, c.rtype = typeCNAME ∧ c.target = x := by
+  intro l
+  induction l with
+  | nil => intro x h; simp [lastCnameTarget] at h
+  | cons r t ih =>
+    intro x h
+    simp only [lastCnameTarget] at h
+    cases ht : lastCnameTarget t with
+    | some y =>
+      rw [ht] at h
+      simp only [Option.some.injEq] at h
+      subst h
+      obtain ⟨c, hc, h1, h2⟩ := ih y ht
+      exact ⟨c, List.mem_cons_of_mem _ hc, h1, h2⟩
+    | none =>
+      rw [ht] at h
+      simp only at h
+      by_cases hr : r.rtype = typeCNAME
+      · simp only [hr, if_true, Option.some.injEq] at h
+        exact ⟨r, by simp, hr, h⟩
+      · simp [hr] at h
+
+theorem scanAnswer_target : ∀ (l : List ChRR) (qname : Str) (qtype : Nat) (cur : Option Str) (t : Str),
+    scanAnswer qname qtype l cur = Scan.target (some t) →
+    cur = some t ∨ ∃ c ∈ l, c.rtype = typeCNAME ∧ c.target = t := by
+  intro l
+  induction l with
+  | nil => intro qname qtype cur t h; simp only [scanAnswer, Scan.target.injEq] at h; exact Or.inl h
+  | cons r rest ih =>
+    intro qname qtype cur t h
+    simp only [scanAnswer] at h
+    by_cases h1 : r.rtype = qtype
+    · simp [h1] at h
+    · simp only [h1, if_false] at h
+      by_cases h2 : r.rtype = typeCNAME
+      · simp only [h2, if_true] at h
+        by_cases h3 : r.target = qname
+        · simp [h3] at h
+        · simp only [h3, if_false] at h
+          rcases ih qname qtype (some r.target) t h with h4 | ⟨c, hc, h5, h6⟩
+          · simp only [Option.some.injEq] at h4
+            exact Or.inr ⟨r, by simp, h2, h4⟩
+          · exact Or.inr ⟨c, List.mem_cons_of_mem _ hc, h5, h6⟩
+      · simp only [h2, if_false] at h
+        rcases ih qname qtype cur t h with h4 | ⟨c, hc, h5, h6⟩
+        · exact Or.inl h4
+        · exact Or.inr ⟨c, List.mem_cons_of_mem _ hc, h5, h6⟩
+
+/-- What one run of the `lookup:` loop guarantees, relative to the message it started from. -/
+structure ChaseInv (resolve : Str → SubResult) (target : Str) (n : Nat) (msg out : ChaseOut) : Prop where
+  more : ∃ more : List Str, out.asked = msg.asked ++ more ∧ more.length ≤ n ∧
+    (∀ r ∈ out.answer, r ∈ msg.answer ∨
+      ∃ t ∈ more, ∃ sr, resolve t = SubResult.resp sr ∧ r ∈ sr.answer) ∧
+    (∀ t ∈ more, t = target ∨
+      ∃ t' ∈ more, ∃ sr, resolve t' = SubResult.resp sr ∧
+        ∃ c ∈ sr.answer, c.rtype = typeCNAME ∧ c.target = t)
+  nodup : msg.asked.Nodup → out.asked.Nodup
+
+theorem chaseLoop_inv (resolve : Str → SubResult) (qname : Str) (qtype : Nat) :
+    ∀ (n : Nat) (target : Str) (msg : ChaseOut),
+      ChaseInv resolve target n msg (chaseLoop resolve qname qtype n target msg) := by
+  intro n
+  induction n with
+  | zero =>
+    intro target msg
+    simp only [chaseLoop]
+    exact ⟨⟨[], by simp, by simp, fun r hr => Or.inl hr, by simp⟩, fun h => h⟩
+  | succ n ih =>
+    intro target msg
+    simp only [chaseLoop]
+    by_cases hc : msg.asked.contains target = true
+    · simp only [hc, if_true]
+      exact ⟨⟨[], by simp [servFail], by simp, by simp [servFail], by simp⟩, by simp [servFail]⟩
+    · simp only [hc, if_false, Bool.false_eq_true]
+      have hnot : target ∉ msg.asked := by simpa using hc
+      have nd : msg.asked.Nodup → (msg.asked ++ [target]).Nodup := by
+        intro h
+        rw [List.nodup_append]
+        refine ⟨h, by simp, ?_⟩
+        intro a ha b hb
+        simp only [List.mem_singleton] at hb
+        subst hb
+        intro hab; subst hab; exact hnot ha
+      -- the shape shared by every exit that asked `target` and nothing more
+      have one : ∀ (out : ChaseOut), out.asked = msg.asked ++ [target] →
+          (∀ r ∈ out.answer, r ∈ msg.answer ∨ ∃ sr, resolve target = SubResult.resp sr ∧ r ∈ sr.answer) →
+          ChaseInv resolve target (n + 1) msg out := by
+        intro out ha hp
+        refine ⟨⟨[target], ha, by simp, ?_, by simp⟩, fun h => by rw [ha]; exact nd h⟩
+        intro r hr
+        rcases hp r hr with h | ⟨sr, h1, h2⟩
+        · exact Or.inl h
+        · exact Or.inr ⟨target, by simp, sr, h1, h2⟩
+      cases hres : resolve target with
+      | limit => exact one _ (by simp [servFail]) (by simp [servFail])
+      | fail =>
+        simp only
+        by_cases ht : target = qname
+        · rw [if_pos ht]; exact one _ (by simp [servFail]) (by simp [servFail])
+        · rw [if_neg ht]; exact one _ rfl (fun r hr => Or.inl hr)
+      | resp sr =>
+        simp only
+        generalize hA : (if (!sr.answer.isEmpty || decide (sr.nsCount > 0)) = true
+            then msg.answer ++ sr.answer else msg.answer) = ans'
+        generalize hN : (if (!sr.answer.isEmpty || decide (sr.nsCount > 0)) = true
+            then (lastCnameTarget sr.answer).getD [] else target) = next
+        have hmsg' : ∀ r ∈ ans', r ∈ msg.answer ∨ r ∈ sr.answer := by
+          intro r hr
+          rw [← hA] at hr
+          split at hr
+          · exact List.mem_append.mp hr
+          · exact Or.inl hr
+        have keep : ChaseInv resolve target (n + 1) msg
+            { rcode := msg.rcode, answer := ans', asked := msg.asked ++ [target] } := by
+          refine one _ rfl ?_
+          intro r hr
+          rcases hmsg' r hr with h | h
+          · exact Or.inl h
+          · exact Or.inr ⟨sr, hres, h⟩
+        by_cases hnx : sr.rcode = rcodeNXDomain
+        · rw [if_pos hnx]
+          refine one _ rfl ?_
+          intro r hr
+          rcases hmsg' r hr with h | h
+          · exact Or.inl h
+          · exact Or.inr ⟨sr, hres, h⟩
+        · rw [if_neg hnx]
+          by_cases hrc : sr.rcode ≠ 0
+          · rw [if_pos hrc]; exact one _ (by simp [servFail]) (by simp [servFail])
+          · rw [if_neg hrc]
+            by_cases hq : next = qname
+            · rw [if_pos hq]; exact one _ (by simp [servFail]) (by simp [servFail])
+            · rw [if_neg hq]
+              split
+              · rename_i hgo
+                obtain ⟨⟨more, h1, h2, h3, h4⟩, h5⟩ := ih next
+                  { rcode := msg.rcode, answer := ans', asked := msg.asked ++ [target] }
+                simp only [Bool.and_eq_true] at hgo
+                have hchild := hgo.1.1
+                have hm : (!sr.answer.isEmpty || decide (sr.nsCount > 0)) = true := hchild.1
+                obtain ⟨x, hx1, hx2⟩ : ∃ x, lastCnameTarget sr.answer = some x ∧ next = x := by
+                  have hs := hchild.2
+                  cases hl : lastCnameTarget sr.answer with
+                  | none => rw [hl] at hs; simp at hs
+                  | some x => refine ⟨x, rfl, ?_⟩; rw [← hN, if_pos hm, hl]; rfl
+                refine ⟨⟨target :: more, by simpa using h1, by simp; omega, ?_, ?_⟩, ?_⟩
+                · intro r hr
+                  rcases h3 r hr with h | ⟨t, ht, sr', hs1, hs2⟩
+                  · rcases hmsg' r h with h' | h'
+                    · exact Or.inl h'
+                    · exact Or.inr ⟨target, by simp, sr, hres, h'⟩
+                  · exact Or.inr ⟨t, List.mem_cons_of_mem _ ht, sr', hs1, hs2⟩
+                · intro t ht
+                  rcases List.mem_cons.mp ht with rfl | ht
+                  · exact Or.inl rfl
+                  · rcases h4 t ht with h | ⟨t', ht', sr', hs1, c, hc1, hc2, hc3⟩
+                    · right
+                      obtain ⟨c, hc1, hc2, hc3⟩ := lastCnameTarget_mem sr.answer x hx1
+                      exact ⟨target, by simp, sr, hres, c, hc1, hc2, by rw [hc3, h, hx2]⟩
+                    · exact Or.inr ⟨t', List.mem_cons_of_mem _ ht', sr', hs1, c, hc1, hc2, hc3⟩
+                · intro hnd
+                  exact h5 (nd hnd)
+              · exact keep
+
+/-! ### case folding commutes with label splitting -/
+
+/-- ASCII lower-casing never produces, and never changes, a character outside
+the letters — in particular the dot and the backslash the splitter looks at. -/
+theorem toLower_eq_of_nonletter (c d : Char)
+    (hd : d.val.toNat < 65 ∨ (90 < d.val.toNat ∧ d.val.toNat < 97)) : c.toLower = d ↔ c = d := by
+  unfold Char.toLower
+  split
+  · rename_i h
+    simp only [ge_iff_le, UInt32.le_iff_toNat_le] at h
+    have hA : ('A'.val).toNat = 65 := by decide
+    have hZ : ('Z'.val).toNat = 90 := by decide
+    have e : (c.val + ('a'.val - 'A'.val)).toNat = c.val.toNat + 32 := by
+      rw [UInt32.toNat_add]
+      have : ('a'.val - 'A'.val).toNat = 32 := by decide
+      rw [this]; omega
+    constructor
+    · intro hh
+      have := congrArg (fun x : Char => x.val.toNat) hh
+      simp only at this
+      omega
+    · intro hh
+      subst hh
+      omega
+  · exact Iff.rfl
+
+theorem toLower_eq_dot (c : Char) : c.toLower = '.' ↔ c = '.' :=
+  toLower_eq_of_nonletter c '.' (Or.inl (by decide))
+
+theorem toLower_eq_bs (c : Char) : c.toLower = '\\' ↔ c = '\\' :=
+  toLower_eq_of_nonletter c '\\' (Or.inr (by decide))
+
+theorem splitLabels_lower : ∀ (l : Str) (bs : Nat) (cur : Str),
+    splitLabels (lower l) bs (lower cur) = (splitLabels l bs cur).map lower := by
+  intro l
+  induction l with
+  | nil => intro bs cur; simp [splitLabels, lower, List.map_reverse]
+  | cons c t ih =>
+    intro bs cur
+    cases t with
+    | nil => simp [splitLabels, lower, List.map_reverse]
+    | cons d rest =>
+      have hcons : lower (c :: d :: rest) = c.toLower :: d.toLower :: lower rest := by simp [lower]
+      rw [hcons]
+      simp only [splitLabels, toLower_eq_dot, toLower_eq_bs]
+      have h1 := ih 0 []
+      have h2 := ih (if c = '\\' then bs + 1 else 0) (c :: cur)
+      simp only [lower, List.map_cons, List.map_nil] at h1 h2 ⊢
+      by_cases hsep : c = '.' ∧ bs % 2 = 0
+      · simp only [hsep, and_self, if_true, List.map_cons]
+        rw [h1]
+        simp [lower, List.map_reverse]
+      · simp only [hsep, if_false]
+        exact h2
+
+theorem lower_eq_dot_iff (s : Str) : lower s = ['.'] ↔ s = ['.'] := by
+  unfold lower
+  constructor
+  · intro h
+    cases s with
+    | nil => simp at h
+    | cons c t =>
+      cases t with
+      | nil => simp only [List.map_cons, List.map_nil, List.cons.injEq, and_true] at h; rw [(toLower_eq_dot c).mp h]
+      | cons d r => simp at h
+  · intro h; subst h; decide
+
+theorem labelsOf_lower (s : Str) : labelsOf (lower s) = (labelsOf s).map lower := by
+  unfold labelsOf
+  by_cases h : s = ['.']
+  · subst h; decide
+  · have h' : lower s ≠ ['.'] := fun x => h ((lower_eq_dot_iff s).mp x)
+    simp only [h, h', if_false]
+    have := splitLabels_lower s 0 []
+    simpa [lower] using this
+
+theorem labelsEq_map_lower_left (a b : Name) : LabelsEq (a.map lower) b ↔ LabelsEq a b := by
+  unfold LabelsEq
+  simp [List.map_map, Function.comp_def, lower_idem]
+
+theorem labelSuffix_map_lower (z n : Name) :
+    LabelSuffix (z.map lower) (n.map lower) ↔ LabelSuffix z n := by
+  constructor
+  · rintro ⟨pre, suf, hsplit, heq⟩
+    rw [labelsEq_map_lower_left] at heq
+    refine ⟨n.take pre.length, n.drop pre.length, (List.take_append_drop _ _).symm, ?_⟩
+    have hd : suf = (n.drop pre.length).map lower := by
+      have := congrArg (List.drop pre.length) hsplit
+      rw [List.drop_left, ← List.map_drop] at this
+      exact this.symm
+    unfold LabelsEq at heq ⊢
+    rw [heq, hd]
+    simp [List.map_map, Function.comp_def, lower_idem]
+  · rintro ⟨pre, suf, rfl, heq⟩
+    refine ⟨pre.map lower, suf.map lower, by simp, ?_⟩
+    unfold LabelsEq at heq ⊢
+    simp only [List.map_map, Function.comp_def, lower_idem]
+    exact heq
+
+/-- Being label-wise inside a zone does not depend on the spelling's case. -/
+theorem labelSuffix_lower_iff (zone name : Str) :
+    LabelSuffix (labelsOf (lower zone)) (labelsOf (lower name)) ↔
+      LabelSuffix (labelsOf zone) (labelsOf name) := by
+  rw [labelsOf_lower, labelsOf_lower, labelSuffix_map_lower]
+
 end SdnsVerif.Lemmas.Bailiwick
